@@ -1,7 +1,7 @@
 SPECIFICATION Spec
 CONSTANT Types = {"state", "povm", "gate", "mprocess"}
 CONSTANT Shapes = {"q", "t"}
-CONSTANT Classes = {"interior", "pure", "rankdef", "mixedrank"}
+CONSTANT Classes = {"interior", "pure", "rankdef", "mixedrank", "faint"}
 CONSTANT Ks = {3, 8, 13}
 CONSTANT Emit = TRUE
 CONSTANT EmitLags = {0, 1}
